@@ -4,6 +4,7 @@ import (
 	"bytes"
 	"encoding/json"
 	"fmt"
+	"hash/crc32"
 	"testing"
 
 	"pgregory.net/rapid"
@@ -93,6 +94,79 @@ func drawC20(t *rapid.T) C20Case {
 	return c
 }
 
+// crc32cTable: the x86 CRC32 instruction (Castagnoli polynomial), which the assembly match finders use as hash.
+var crc32cTable = crc32.MakeTable(crc32.Castagnoli)
+
+// collidingFraction is the class predicate of the known finding "periodic-hash-bucket-collisions":
+// for data repeating with period pat, the largest fraction (over the match finders' bucket functions:
+// CRC32C or the multiplicative hash of lz77.go, 12 or 15 bits) of the period's 4-byte windows that
+// share their hash bucket with a different window of the same period. The match finders keep one
+// position per bucket, so such windows evict each other on every repetition and never match.
+func collidingFraction(pat []byte) float64 {
+	p := len(pat)
+	if p == 0 {
+		return 0
+	}
+	grams := make([]uint32, p)
+	for i := range grams {
+		grams[i] = uint32(pat[i%p]) | uint32(pat[(i+1)%p])<<8 | uint32(pat[(i+2)%p])<<16 | uint32(pat[(i+3)%p])<<24
+	}
+	hashMul := func(d uint32) uint32 {
+		const prime = 0xB2D06057
+		h := uint64(d)
+		h *= prime
+		h >>= 16
+		h *= prime
+		h >>= 16
+		return uint32(h)
+	}
+	hashCRC := func(d uint32) uint32 {
+		b := []byte{byte(d), byte(d >> 8), byte(d >> 16), byte(d >> 24)}
+		return ^crc32.Update(0xffffffff, crc32cTable, b)
+	}
+	worst := 0.0
+	for _, h := range []func(uint32) uint32{hashMul, hashCRC} {
+		for _, mask := range []uint32{1<<12 - 1, 1<<15 - 1} {
+			byBucket := map[uint32]map[uint32]bool{}
+			for _, g := range grams {
+				b := h(g) & mask
+				if byBucket[b] == nil {
+					byBucket[b] = map[uint32]bool{}
+				}
+				byBucket[b][g] = true
+			}
+			bad := 0
+			for _, g := range grams {
+				if len(byBucket[h(g)&mask]) > 1 {
+					bad++
+				}
+			}
+			if f := float64(bad) / float64(p); f > worst {
+				worst = f
+			}
+		}
+	}
+	return worst
+}
+
+// periodOf returns the period bytes of a "periodic" case.
+func (c C20Case) periodOf() []byte {
+	if c.Mode != "periodic" || len(c.Data.Segs) == 0 {
+		return nil
+	}
+	s := c.Data.Segs[0]
+	p := s.A
+	if len(s.Raw) > 0 {
+		p = len(s.Raw)
+	}
+	if p < 1 {
+		p = 1
+	}
+	one := s
+	one.N = p
+	return gen.Recipe{Segs: []gen.Seg{one}}.Bytes()
+}
+
 func checkC20(c C20Case) (labels []string, nontrivial bool, err error) {
 	for _, o := range c.Ops {
 		if o.K != "W" {
@@ -139,6 +213,10 @@ func checkC20(c C20Case) (labels []string, nontrivial bool, err error) {
 func TestC20(t *testing.T) {
 	rapid.Check(t, func(t *rapid.T) {
 		c := drawC20(t)
+		if c.Mode == "periodic" && knownActive("periodic-hash-bucket-collisions") && collidingFraction(c.periodOf()) >= 0.75 {
+			stats.Exclude("C20", "periodic-hash-bucket-collisions")
+			return
+		}
 		done := begin("C20", c)
 		defer done()
 		labels, nt, err := checkC20(c)
